@@ -886,8 +886,9 @@ func (u *Universe) verifyScenario(fi *FuncInfo, sc *ScenarioSpec) *FuncResult {
 		env.Vars[r.Name()] = sv
 	}
 	for pname, e := range sc.Binds {
-		// option lists: noopts() / optlist(l) / optlist2(l1, l2) build the real closures of WithOptionsLanguage
-		if e.Op == "call" && (e.Name == "noopts" || e.Name == "optlist" || e.Name == "optlist2") {
+		// option lists: noopts() / optlist(l) / optlist2(l1, l2) / optlist3(..) / optlist4(..) build the real closures of
+		// WithOptionsLanguage, one per argument
+		if e.Op == "call" && (e.Name == "noopts" || strings.HasPrefix(e.Name, "optlist")) {
 			vv := &VariadicVal{}
 			wol := u.Funcs[aliasOf(fi.Obj.Pkg())+".WithOptionsLanguage"]
 			for _, a := range e.Args {
